@@ -17,6 +17,11 @@ Definition flip (d : dict) : dict := map (fun p => (snd p, fst p)) d.
 (* dict(pairs): later pairs overwrite in place *)
 Definition dict_of (kvs : list kv) : dict := fold_left (fun d p => d_set d (fst p) (snd p)) kvs [].
 
+(* tokens >= 900 stand for unhashable python objects (lists) *)
+Definition unhashable (v : nat) : bool := Nat.leb 900 v.
+Global Arguments unhashable : simpl never.
+Definition kv_unhashable (p : kv) : bool := unhashable (fst p) || unhashable (snd p).
+
 (* results of public calls *)
 Inductive val :=
 | VNone | VTok (n : nat) | VPair (k v : nat) | VSelf | VBool (b : bool) | VSet (l : list nat).
@@ -50,6 +55,15 @@ Definition oto_init_unique (kvs : list kv) : res oto :=
   let inv := dict_of (flip fwd) in
   if Nat.eqb (length fwd) (length inv) then Ok (mkOto fwd inv) else Raise ValueError.
 
+(* OneToOne(...) / OneToOne.unique(...): dict.__init__ hashes every key; building
+   inv hashes the values the dict ended up with (a value overwritten by a later
+   pair is never hashed): TypeError, no instance *)
+Definition new_rejects (kvs : list kv) : bool :=
+  existsb (fun p => unhashable (fst p)) kvs || existsb (fun p => unhashable (snd p)) (dict_of kvs).
+Definition oto_new (uniq : bool) (kvs : list kv) : res oto :=
+  if new_rejects kvs then Raise TypeError
+  else if uniq then oto_init_unique kvs else Ok (oto_init kvs).
+
 (* __setitem__ *)
 Definition oto_setitem (o : oto) (k v : nat) : oto :=
   (* if key in self: dict.__delitem__(self.inv, self[key]) *)
@@ -69,15 +83,19 @@ Inductive oto_op :=
 Definition oto_update (o : oto) (kvs : list kv) : oto :=
   fold_left (fun o p => oto_setitem o (fst p) (snd p)) kvs o.
 
+(* hash(val) / `key in self` come first: an unhashable operand raises TypeError
+   before anything is written; update validates every pair before the first write *)
 Definition oto_step (o : oto) (op : oto_op) : oto * res val :=
   match op with
-  | OSet k v => (oto_setitem o k v, Ok VNone)
+  | OSet k v => if unhashable v || unhashable k then (o, Raise TypeError) else (oto_setitem o k v, Ok VNone)
   | ODel k =>
+      if unhashable k then (o, Raise TypeError) else
       match d_get (o_fwd o) k with
       | None => (o, Raise KeyError)
       | Some v => (mkOto (d_rm (o_fwd o) k) (d_rm (o_inv o) v), Ok VNone)
       end
   | OPop k d =>
+      if unhashable k then (o, Raise TypeError) else
       match d_get (o_fwd o) k with
       | Some v => (mkOto (d_rm (o_fwd o) k) (d_rm (o_inv o) v), Ok (VTok v))
       | None => match d with Some dv => (o, Ok (VTok dv)) | None => (o, Raise KeyError) end
@@ -89,13 +107,16 @@ Definition oto_step (o : oto) (op : oto_op) : oto * res val :=
       end
   | OClear => (mkOto [] [], Ok VNone)
   | OSetdefault k d =>
+      if unhashable k then (o, Raise TypeError) else
       match d_get (o_fwd o) k with
       | Some v => (o, Ok (VTok v))
-      | None => (oto_setitem o k d, Ok (VTok d))
+      | None => if unhashable d then (o, Raise TypeError) else (oto_setitem o k d, Ok (VTok d))
       end
-  | OUpdate kvs => (oto_update o kvs, Ok VNone)
-  | OIor kvs => (oto_update o kvs, Ok VSelf)
-  | OGet k => (o, match d_get (o_fwd o) k with Some v => Ok (VTok v) | None => Raise KeyError end)
+  | OUpdate kvs => if existsb kv_unhashable kvs then (o, Raise TypeError) else (oto_update o kvs, Ok VNone)
+  | OIor kvs => if existsb kv_unhashable kvs then (o, Raise TypeError) else (oto_update o kvs, Ok VSelf)
+  | OGet k =>
+      if unhashable k then (o, Raise TypeError) else
+      (o, match d_get (o_fwd o) k with Some v => Ok (VTok v) | None => Raise KeyError end)
   end.
 
 (* an operation applied through o.inv *)
@@ -122,9 +143,8 @@ Definition BadIndex := OtherExn 99.
 
 Definition oto_hstep (h : list oto) (hop : oto_hop) : list oto * res val :=
   match hop with
-  | HNew false kvs => (h ++ [oto_init kvs], Ok VNone)
-  | HNew true kvs =>
-      match oto_init_unique kvs with Ok o => (h ++ [o], Ok VNone) | Raise e => (h, Raise e) end
+  | HNew uniq kvs =>
+      match oto_new uniq kvs with Ok o => (h ++ [o], Ok VNone) | Raise e => (h, Raise e) end
   | HCopy i s =>
       match nth_error h i with
       | Some o => (h ++ [oto_init (o_fwd (oto_side s o))], Ok VNone)
@@ -311,8 +331,6 @@ Definition m2m_obs := (res val * list m2m_view)%type.
 (* FrozenDict                                                              *)
 (* ====================================================================== *)
 Definition FrozenHashError := OtherExn 1.
-(* value tokens >= 900 stand for unhashable python objects (lists) *)
-Definition unhashable (v : nat) : bool := Nat.leb 900 v.
 
 Open Scope Z_scope.
 (* hash(frozenset(items)) as CPython 3.12 computes it (Objects/setobject.c
